@@ -28,9 +28,9 @@ OVERRIDE_VALUES = {
     'priority': ['low', 'high', 'syntax'], 'score': [1, '+5%'], 'category': ['student', 'style'], 'correct': [True, False],
 }
 POOL = ['Feedback', 'FeedbackResponse', 'explain', 'gently', 'compliment', 'set_correct', 'guidance', 'give_partial',
-        'system_error', 'blank_source', 'GenParent', 'GenChild', 'GenOther']
-GEN = ('GenParent', 'GenChild', 'GenOther')
-TEMPLATES = ['plain text', 'k={k}', 'n={n} k={k}', '{k:name}', 'see {k:python_value} and {n:filename}', '{k!r}',
+        'system_error', 'blank_source', 'GenParent', 'GenChild', 'GenOther', 'GenConst', 'GenConst']
+GEN = ('GenParent', 'GenChild', 'GenOther', 'GenConst')
+TEMPLATES = ['plain text', 'k={k}', 'k={k} unit={unit}', 'n={n} k={k}', '{k:name}', 'see {k:python_value} and {n:filename}', '{k!r}',
              '{k:frame}|{n:line}', '{k:python_expression}{k:output}', '{k:traceback}', '{k:inputs}', '{k:exception}',
              '{k:python_code}', '{{literal}} {k}', '{missing}', '{k:name} {missing:name}']
 FIELD_VALUES = ['abc', 'x y', '__dunder__', '<tag>', 7, 0, '']
@@ -63,6 +63,11 @@ def setup():
 
     class GenChild(GenParent):
         title = 'Gen Child'
+
+    class GenConst(GenParent):
+        title = 'Gen Const'
+        message_template = 'const {k} in {unit}'
+        constant_fields = {'unit': 'px', 'scale': 2}     # keys the caller never passes: no precedence question
 
     class GenOther(Feedback):
         category = 'specification'
@@ -102,10 +107,12 @@ def setup():
     classes = {'Feedback': Feedback, 'FeedbackResponse': FeedbackResponse, 'explain': C.explain, 'gently': C.gently,
                'compliment': C.compliment, 'set_correct': C.set_correct, 'guidance': C.guidance,
                'give_partial': C.give_partial, 'system_error': C.system_error, 'blank_source': blank_source,
-               'GenParent': GenParent, 'GenChild': GenChild, 'GenOther': GenOther}
+               'GenParent': GenParent, 'GenChild': GenChild, 'GenOther': GenOther, 'GenConst': GenConst}
     snapshot_attrs = OVERRIDE_FIELDS + ['message', 'kind', 'valence', 'unscored', 'else_message']
     pristine = {n: {a: getattr(c, a) for a in snapshot_attrs} for n, c in classes.items()}
     own = {n: {a: (a in c.__dict__, c.__dict__.get(a)) for a in snapshot_attrs} for n, c in classes.items()}
+    import copy
+    _state['constant_fields'] = {n: copy.deepcopy(getattr(c, 'constant_fields', None)) for n, c in classes.items()}
     _state.update(classes=classes, pristine=pristine, own=own, attrs=snapshot_attrs, Grp=Grp,
                   formatters={'marker': MarkerFormatter, 'html': HtmlFormatter, 'default': Formatter})
     return _state
@@ -121,6 +128,9 @@ def force_restore():
                 delattr(c, a)
         if '_override_backups' in c.__dict__:
             delattr(c, '_override_backups')
+        if s.get('constant_fields', {}).get(n) is not None and c.constant_fields != s['constant_fields'][n]:
+            import copy
+            c.constant_fields = copy.deepcopy(s['constant_fields'][n])
     from pedal.core.feedback import Feedback
     Feedback._override_backups = None
 
@@ -306,8 +316,23 @@ class Stepper:
             # a missing field, or the formatter method itself failing on this value: the message "raises"
             return None, True
 
+    def given_fields(self, op, kw):
+        """What the caller supplied (copied before the call) plus the class's constant fields as they were defined."""
+        given = dict(kw.get('fields') or {})
+        for key in ('k', 'n'):
+            if key in kw:
+                given[key] = kw[key]
+        const = self.s['constant_fields'].get(op['cls'])
+        if const:
+            given.update(const)
+        for name in (getattr(self.s['classes'][op['cls']], 'field_names', None) or []):
+            given.setdefault(name, None)      # declared field names default to None
+        return given
+
     def do_create(self, op, viol):
         cls, args, kw, outcome = self.build_call(op)
+        self._given = self.given_fields(op, kw)
+        self._cls_name = op['cls']
         if kw.get('message_template') and ':' in kw['message_template']:
             self.flags.add('format-spec')
         before = list(self.report.feedback) + list(self.report.ignored_feedback)
@@ -327,7 +352,7 @@ class Stepper:
                 return
             if new:
                 viol.append(V('C20|bookkeeping|delayed-recorded', 'delay_condition=True but object recorded'))
-            obj._c20 = (cls, kw, outcome)
+            obj._c20 = (cls, kw, outcome, self._given, self._cls_name)
             self.delayed.append(obj)
             return
         self.judge_outcome(cls, kw, outcome, obj, exc, new, viol)
@@ -342,7 +367,17 @@ class Stepper:
             fields_view = new[0].fields
         expected_text, msg_raises = (None, None)
         if fields_view is not None:
-            expected_text, msg_raises = self.expected_message(cls, kw, fields_view)
+            # the fields the message is rendered from are derived from the call, not read back from the object
+            for key, value in self._given.items():
+                if key not in fields_view or fields_view[key] != value:
+                    viol.append(V('C20|fields|not-what-was-passed', '%s(**%r): field %r is %r on the object, the call and the class give %r'
+                                  % (cls.__name__, kw, key, fields_view.get(key, '<missing>'), value)))
+                    break
+            expected_text, msg_raises = self.expected_message(cls, kw, self._given)
+        const = self.s['constant_fields'].get(self._cls_name)
+        if const is not None and (cls.constant_fields != const or (fields_view is not None and fields_view is cls.constant_fields)):
+            viol.append(V('C20|fields|class-constant-fields-changed', 'creating %s(**%r) changed the class attribute constant_fields to %r (defined as %r)'
+                          % (cls.__name__, kw, cls.constant_fields, const)))
         cond_raises = outcome == 'raise'
         should_raise = cond_raises or (triggered and msg_raises is True)
         if should_raise:
@@ -380,7 +415,7 @@ class Stepper:
 
     def do_handle(self, op, viol):
         obj = self.delayed.pop(op['index'] % len(self.delayed))
-        cls, kw, outcome = obj._c20
+        cls, kw, outcome, self._given, self._cls_name = obj._c20
         exc = None
         try:
             obj._handle_condition()
